@@ -1,3 +1,28 @@
+/-
+C05, first clause (grammar): "In where, field expressions, keys and aggregate arguments, `*` `/`
+bind tighter than `+` `-`, then comparisons, then `and`, then `or`, left-associatively."
+
+About the parser model AgModel/Lang/Parser.lean (`unary`, `term`, `arithExpr`, `cmpExpr`,
+`logicalAnd`, `logicalOr`, `exprN`), as it is:
+
+ 1. ASSOCIATIVITY, every chain length.  `foldMany0_left_fold`: `fold_many0` answers the LEFT fold
+    over any run of its element parser (`Steps`).  Instantiated per level on the characters
+    (`OpChain` = operator token with its blanks, then the operand parser of the level, repeated):
+    `term_left_fold`, `arithExpr_left_fold`, `logicalAnd_left_fold`, `logicalOr_left_fold`.
+    The comparison level does not chain (`opt`, at most one operator): `cmpExpr_operands`,
+    `cmpExpr_no_operator`.
+    A right-recursive `term` (`unary (op term)?`, i.e. `a / b / c = a / (b / c)`) contradicts
+    `term_left_fold` and `inst_div_div`.
+ 2. PRECEDENCE = nesting of the levels: the operand parser of `arithExpr` is `term`, of `cmpExpr`
+    `arithExpr`, of `logicalAnd` `cmpExpr`, of `logicalOr` `logicalAnd` — this is what the
+    `operand` argument of `OpChain` in each level theorem says.  Spelled out for two operators:
+    `add_then_mul`, `mul_then_add`, `or_then_and`, `and_then_or`.
+ 3. Evaluated instances through the real `expr` (`inst_*`) and through whole queries (`q_*`).
+
+The level theorems need that operand parsers never return a longer rest than their input
+(`Mono`, because `fold_many0` runs on fuel = remaining length + 1); `mono_exprN` /
+`mono_optExprN` prove it for the real expression parser, so no side condition remains.
+-/
 import AgProofs.Lemmas.LangEq
 
 namespace Ag.C05prec
@@ -772,6 +797,268 @@ theorem mono_expectDelimited {α β : Type} {first : P β} {second : P α} {thir
     · exact ((h2 r1 e1).castErr).trans a1
   · exact (h1 i e).castErr
 
+/-! strings, identifiers, literals -/
+
+theorem escScan_le (q : Char) :
+    ∀ (l a r : List Char), escScan q l = some (a, r) → r.length ≤ l.length
+  | [], a, r, h => by simp [escScan] at h; simp [h]
+  | c :: cs, a, r, h => by
+    unfold escScan at h
+    split at h
+    · cases cs with
+      | nil => simp at h
+      | cons d ds =>
+        simp only at h
+        cases hrec : escScan q ds with
+        | none => simp [hrec] at h
+        | some ar =>
+          obtain ⟨a', r'⟩ := ar
+          simp [hrec] at h
+          have := escScan_le q ds a' r' hrec
+          rw [← h.2]
+          simp only [List.length_cons]; omega
+    · split at h
+      · simp at h; simp [← h.2]
+      · cases hrec : escScan q cs with
+        | none => simp [hrec] at h
+        | some ar =>
+          obtain ⟨a', r'⟩ := ar
+          simp [hrec] at h
+          have := escScan_le q cs a' r' hrec
+          rw [← h.2]
+          simp only [List.length_cons]; omega
+termination_by l => l.length
+
+theorem mono_escBody (q : Char) : Mono (escBody q) := by
+  intro i e
+  unfold escBody
+  cases h : escScan q i with
+  | none => simp [ResLe]
+  | some ar =>
+    obtain ⟨a, r⟩ := ar
+    simp only [ResLe]
+    exact escScan_le q i a r h
+
+theorem mono_quotedString : Mono quotedString :=
+  mono_pmap _ (mono_alt (mono_expectDelimited (mono_tag _) (mono_escBody _) (mono_tag _))
+    (mono_expectDelimited (mono_tag _) (mono_escBody _) (mono_tag _)))
+
+theorem mono_bareIdent : Mono bareIdent := by
+  intro i e
+  unfold bareIdent
+  cases i with
+  | nil => simp [ResLe]
+  | cons c cs =>
+    by_cases hc : startsIdentCh c = true
+    · simp only [hc, if_true, ResLe, List.length_cons]
+      have := dropWhile_le isIdentCh cs
+      omega
+    · simp [hc, ResLe]
+
+theorem mono_ident : Mono ident :=
+  mono_alt mono_bareIdent (mono_expectDelimited (mono_tag _) mono_quotedString (mono_tag _))
+
+theorem mono_i64Parse : Mono i64Parse := by
+  intro i e
+  have hr : Mono (recognize (opt (tag "-") *> digit1)) :=
+    mono_recognize (mono_seqRight (mono_opt (mono_tag _)) mono_digit1)
+  unfold i64Parse
+  split
+  · rename_i txt r e1 h
+    have := hr.ok h
+    split <;> simp [ResLe, this]
+  · exact (hr i e).castErr
+
+theorem mono_unitTag : ∀ (l : List (String × Int)), Mono (unitTag l)
+  | [] => mono_failHere
+  | [(u, _)] => mono_pmap _ (mono_tag u)
+  | (u, _) :: x :: rest => mono_alt (mono_pmap _ (mono_tag u)) (mono_unitTag (x :: rest))
+
+theorem mono_durationFragment : Mono durationFragment := by
+  intro i e
+  unfold durationFragment
+  split
+  · rename_i amount r e1 h
+    have h1 := mono_i64Parse.ok h
+    split
+    · rename_i u k r2 e2 h2
+      have := (mono_unitTag unitNs).ok h2
+      split <;> simp only [ResLe] <;> omega
+    · exact ((mono_unitTag unitNs r e1).castErr).trans h1
+  · exact (mono_i64Parse i e).castErr
+
+theorem durLoop_le : ∀ (n : Nat) (acc : Option Int) (i : List Char) (e : Nat),
+    ResLe (durLoop n acc i e) i.length := by
+  intro n
+  induction n with
+  | zero => intro acc i e; simp [durLoop, ResLe]
+  | succ n ih =>
+    intro acc i e
+    unfold durLoop
+    split
+    · simp [ResLe]
+    · rename_i d i1 e1 h
+      exact (ih _ i1 e1).trans (mono_durationFragment.ok h)
+    · exact (mono_durationFragment i e).castErr
+
+theorem mono_duration : Mono duration := by
+  intro i e
+  unfold duration
+  split
+  · rename_i d i1 e1 h
+    have h1 := mono_durationFragment.ok h
+    have h2 := durLoop_le (i1.length + 1) (some d) i1 e1
+    split
+    · rename_i total r e2 h3
+      rw [h3] at h2
+      simp only [ResLe] at h2 ⊢; omega
+    · simp [ResLe]
+    · exact (h2.castErr).trans h1
+  · simp [ResLe]
+  · exact mono_durationFragment i e
+
+theorem mono_valueP : Mono valueP := by
+  unfold valueP
+  apply mono_altL
+  intro p hp
+  simp only [List.mem_cons, List.not_mem_nil, or_false] at hp
+  rcases hp with rfl | rfl | rfl | rfl | rfl | rfl
+  · exact mono_pmap _ mono_quotedString
+  · exact mono_pmap _ mono_duration
+  · exact mono_pmap _ mono_digit1
+  · exact mono_pmap _ (mono_kw _)
+  · exact mono_pmap _ (mono_kw _)
+  · exact mono_pmap _ (mono_kw _)
+
+theorem mono_dotProperty : Mono dotProperty :=
+  mono_pmap _ (mono_seqRight (mono_tag _) mono_ident)
+
+theorem mono_indexAccess : Mono indexAccess :=
+  mono_pmap _ (mono_seqLeft (mono_seqRight (mono_tag _) mono_i64Parse) (mono_tag _))
+
+theorem mono_columnRef : Mono columnRef :=
+  mono_bind_m mono_ident (fun _ =>
+    mono_bind_m (mono_many0 (mono_alt mono_dotProperty mono_indexAccess)) (fun _ => mono_pure_m _))
+
+/-! the expression grammar -/
+
+theorem mono_argList {optE : P Expr} (h : Mono optE) : Mono (argList optE) :=
+  mono_expectDelimited (mono_seqRight (mono_tag _) mono_ws0)
+    (mono_sepList0 (mono_tag _) (mono_seqLeft (mono_seqRight mono_ws0 h) mono_ws0)) (mono_tag _)
+
+theorem mono_fcall {optE : P Expr} (h : Mono optE) : Mono (fcall optE) :=
+  mono_bind_m mono_ident (fun _ => mono_bind_m (mono_argList h) (fun _ => mono_pure_m _))
+
+theorem mono_ifOp {optE : P Expr} (h : Mono optE) : Mono (ifOp optE) := by
+  unfold ifOp
+  refine mono_bind_m (mono_tag _) (fun _ => mono_bind_m (mono_argList h) (fun args => ?_))
+  split
+  · exact mono_pure_m _
+  · exact mono_bind_m mono_report (fun _ => mono_pure_m _)
+
+theorem mono_atomic {pe optE : P Expr} (hpe : Mono pe) (h : Mono optE) : Mono (atomic pe optE) := by
+  unfold atomic
+  apply mono_altL
+  intro p hp
+  simp only [List.mem_cons, List.not_mem_nil, or_false] at hp
+  rcases hp with rfl | rfl | rfl | rfl | rfl
+  · exact mono_ifOp h
+  · exact mono_fcall h
+  · exact mono_pmap _ mono_valueP
+  · exact mono_columnRef
+  · exact mono_expectDelimited (mono_tag _) hpe (mono_seqRight mono_ws0 (mono_tag _))
+
+theorem mono_unary {pe optE : P Expr} (hpe : Mono pe) (h : Mono optE) : Mono (unary pe optE) := by
+  unfold unary
+  refine mono_bind_m (mono_opt (mono_tag _)) (fun op => ?_)
+  cases op with
+  | none => exact mono_atomic hpe h
+  | some _ => exact mono_pmap _ (mono_expectFn (mono_atomic hpe h))
+
+theorem mono_wsTok {τ : Type} {p : P τ} (hp : Mono p) : Mono (wsTok p) :=
+  mono_bind (mono_bind mono_ws0 (fun _ => hp)) (fun a => mono_bind mono_ws0 (fun _ => mono_pure a))
+
+theorem mono_muldivOp : Mono muldivOp :=
+  mono_alt (mono_pmap _ (mono_tag _)) (mono_pmap _ (mono_tag _))
+
+theorem mono_addsubOp : Mono addsubOp :=
+  mono_alt (mono_pmap _ (mono_tag _)) (mono_pmap _ (mono_tag _))
+
+theorem mono_term {pe optE : P Expr} (hpe : Mono pe) (h : Mono optE) : Mono (term pe optE) := by
+  rw [term_unfold]
+  refine mono_bind (mono_unary hpe h) (fun init => mono_foldMany0 _ _ ?_)
+  refine mono_bind (mono_wsTok mono_muldivOp) (fun op => mono_bind (mono_opt (mono_unary hpe h))
+    (fun r => ?_))
+  cases r with
+  | none => exact mono_bind mono_report (fun _ => mono_pure _)
+  | some x => exact mono_pure _
+
+theorem mono_arithExpr {pe optE : P Expr} (hpe : Mono pe) (h : Mono optE) :
+    Mono (arithExpr pe optE) := by
+  rw [arithExpr_unfold]
+  exact mono_bind (mono_term hpe h) (fun init => mono_foldMany0 _ _
+    (mono_bind (mono_wsTok mono_addsubOp) (fun op =>
+      mono_bind (mono_expectFn (mono_term hpe h)) (fun r => mono_pure _))))
+
+theorem mono_compOp : Mono compOp := by
+  unfold compOp
+  apply mono_altL
+  intro p hp
+  simp only [List.mem_cons, List.not_mem_nil, or_false] at hp
+  rcases hp with rfl | rfl | rfl | rfl | rfl | rfl | rfl <;> exact mono_pmap _ (mono_tag _)
+
+theorem mono_cmpExpr {pe optE : P Expr} (hpe : Mono pe) (h : Mono optE) :
+    Mono (cmpExpr pe optE) := by
+  rw [cmpExpr_unfold]
+  refine mono_bind mono_ws0 (fun _ => mono_bind (mono_arithExpr hpe h) (fun l =>
+    mono_bind (mono_opt (mono_bind (mono_wsTok mono_compOp) (fun op =>
+      mono_bind (mono_expect (mono_arithExpr hpe h)) (fun rhs => mono_pure _)))) (fun r => ?_)))
+  cases r with
+  | none => exact mono_pure _
+  | some p => obtain ⟨op, rhs⟩ := p; exact mono_pure _
+
+theorem mono_logicElem (word sym : String) {operand : P Expr} (hop : Mono operand) :
+    Mono (logicElem word sym operand) := by
+  refine mono_bind (mono_alt
+    (mono_bind mono_ws1 (fun _ => mono_bind (mono_kw _) (fun _ =>
+      mono_opt (mono_bind mono_ws1 (fun _ => hop)))))
+    (mono_bind mono_ws0 (fun _ => mono_bind (mono_tag _) (fun _ => mono_bind mono_ws0 (fun _ =>
+      mono_opt hop))))) (fun r => ?_)
+  cases r with
+  | none => exact mono_bind mono_report (fun _ => mono_pure _)
+  | some x => exact mono_pure _
+
+theorem mono_logicalAnd {pe optE : P Expr} (hpe : Mono pe) (h : Mono optE) :
+    Mono (logicalAnd pe optE) := by
+  rw [logicalAnd_unfold]
+  exact mono_bind (mono_cmpExpr hpe h) (fun _ => mono_foldMany0 _ _
+    (mono_logicElem _ _ (mono_cmpExpr hpe h)))
+
+theorem mono_logicalOr {pe optE : P Expr} (hpe : Mono pe) (h : Mono optE) :
+    Mono (logicalOr pe optE) := by
+  rw [logicalOr_unfold]
+  exact mono_bind (mono_logicalAnd hpe h) (fun _ => mono_foldMany0 _ _
+    (mono_logicElem _ _ (mono_logicalAnd hpe h)))
+
+theorem mono_exprOf {optE : P Expr} (h : Mono optE) : Mono (exprOf optE) := by
+  intro i e
+  unfold exprOf
+  split
+  · rename_i v r e1 hp
+    simp only [ResLe]; exact h.ok hp
+  · exact resumeAt_le _ _ _ _ _
+  · exact resumeAt_le _ _ _ _ _
+  · simp [ResLe]
+  · simp [ResLe]
+
+/-- the real expression parsers are monotone, at every nesting fuel -/
+theorem mono_optExprN : ∀ n, Mono (optExprN n)
+  | 0 => by intro i e; simp [optExprN, ResLe]
+  | n + 1 =>
+    mono_seqRight mono_ws0 (mono_logicalOr (mono_exprOf (mono_optExprN n)) (mono_optExprN n))
+
+theorem mono_exprN (n : Nat) : Mono (exprN n) := mono_exprOf (mono_optExprN n)
+
 /-! ### chains of operators and operands -/
 
 /-- `OpChain tok operand mk i e bs iF eF`: the input `i` is `op₁ x₁ op₂ x₂ … opₙ xₙ iF`, where each
@@ -783,11 +1070,11 @@ inductive OpChain {τ β : Type} (tok : List Char → τ → List Char → Prop)
   | nil (i : List Char) (e : Nat) : OpChain tok operand mk i e [] i e
   | cons {i : List Char} {e : Nat} {op : τ} {j : List Char} {x : Expr} {k : List Char} {e' : Nat}
       {bs : List β} {iF : List Char} {eF : Nat} :
-      tok i op j → operand j e = .ok x k e' → k.length ≤ j.length →
+      tok i op j → operand j e = .ok x k e' →
       OpChain tok operand mk k e' bs iF eF → OpChain tok operand mk i e (mk op x :: bs) iF eF
 
 theorem chain_steps {τ β : Type} (tok : List Char → τ → List Char → Prop) (operand : P Expr)
-    (mk : τ → Expr → β) (f : P β) (stop : List Char → Prop)
+    (mk : τ → Expr → β) (f : P β) (stop : List Char → Prop) (hm : Mono operand)
     (hlen : ∀ i op j, tok i op j → j.length < i.length)
     (hstep : ∀ i e op j x k e', tok i op j → operand j e = .ok x k e' →
       f i e = .ok (mk op x) k e')
@@ -798,23 +1085,29 @@ theorem chain_steps {τ β : Type} (tok : List Char → τ → List Char → Pro
   | nil i e =>
     obtain ⟨pos, hf⟩ := hstop i e hs
     exact Steps.done hf
-  | cons ht hx hl _ ih =>
+  | cons ht hx _ ih =>
     have := hlen _ _ _ ht
+    have := hm.ok hx
     exact Steps.step (hstep _ _ _ _ _ _ _ ht hx) (by omega) (ih hs)
 
-/-! ### C05, first clause: every level is a LEFT fold over operands of the next tighter level -/
+/-! ### C05, first clause: every level is a LEFT fold over operands of the next tighter level
+
+`pe` / `optE` are the parsers used inside parentheses and argument lists (`expr` / `opt_expr` of the
+enclosing nesting level); the real ones are `exprN n` / `optExprN n`, for which `mono_exprN` /
+`mono_optExprN` discharge the two `Mono` hypotheses. -/
 
 /-- **`*` `/` chains associate to the left** (every length): if `unary` reads `e₀` and what follows
 is `op₁ u₁ … opₙ uₙ` with `opₖ ∈ {*, /}` (blanks allowed around) and `uₖ` read by `unary`, and then
 neither `*` nor `/` follows, `term` answers `(((e₀ op₁ u₁) op₂ u₂) … opₙ uₙ)` and leaves the rest. -/
-theorem term_left_fold (pe optE : P Expr) {i : List Char} {e : Nat} {e0 : Expr} {i1 : List Char}
+theorem term_left_fold (pe optE : P Expr) (hpe : Mono pe) (hoptE : Mono optE)
+    {i : List Char} {e : Nat} {e0 : Expr} {i1 : List Char}
     {e1 : Nat} {ps : List (ArithOp × Expr)} {iF : List Char} {eF : Nat}
     (h0 : unary pe optE i e = .ok e0 i1 e1)
     (hc : OpChain MulDivAt (unary pe optE) Prod.mk i1 e1 ps iF eF) (hend : NoMulDiv iF) :
     term pe optE i e = .ok (ps.foldl (fun l p => Expr.arith p.1 l p.2) e0) iF eF := by
   rw [term_unfold, bind_ok h0]
   refine foldMany0_left_fold _ _ _ (chain_steps MulDivAt _ Prod.mk (termElem pe optE) NoMulDiv
-    (fun _ _ _ h => h.length_lt) ?_ ?_ hc hend)
+    (mono_unary hpe hoptE) (fun _ _ _ h => h.length_lt) ?_ ?_ hc hend)
   · intro i e op j x k e' ht hx
     unfold termElem
     rw [bind_ok (mdTok_at ht e), bind_ok (opt_ok hx)]
@@ -824,14 +1117,15 @@ theorem term_left_fold (pe optE : P Expr) {i : List Char} {e : Nat} {e0 : Expr} 
 
 /-- **`+` `-` chains associate to the left, and their operands are whole `term`s** (so `*` `/`
 bind tighter). -/
-theorem arithExpr_left_fold (pe optE : P Expr) {i : List Char} {e : Nat} {e0 : Expr}
+theorem arithExpr_left_fold (pe optE : P Expr) (hpe : Mono pe) (hoptE : Mono optE)
+    {i : List Char} {e : Nat} {e0 : Expr}
     {i1 : List Char} {e1 : Nat} {ps : List (ArithOp × Expr)} {iF : List Char} {eF : Nat}
     (h0 : term pe optE i e = .ok e0 i1 e1)
     (hc : OpChain AddSubAt (term pe optE) Prod.mk i1 e1 ps iF eF) (hend : NoAddSub iF) :
     arithExpr pe optE i e = .ok (ps.foldl (fun l p => Expr.arith p.1 l p.2) e0) iF eF := by
   rw [arithExpr_unfold, bind_ok h0]
   refine foldMany0_left_fold _ _ _ (chain_steps AddSubAt _ Prod.mk (addElem pe optE) NoAddSub
-    (fun _ _ _ h => h.length_lt) ?_ ?_ hc hend)
+    (mono_term hpe hoptE) (fun _ _ _ h => h.length_lt) ?_ ?_ hc hend)
   · intro i e op j x k e' ht hx
     unfold addElem
     rw [bind_ok (asTok_at ht e), bind_ok (expectFn_ok hx)]
@@ -867,14 +1161,15 @@ theorem cmpExpr_no_operator (pe optE : P Expr) {i : List Char} {e : Nat} {l : Ex
   rfl
 
 /-- **`and` / `&&` chains associate to the left, and their operands are whole comparisons.** -/
-theorem logicalAnd_left_fold (pe optE : P Expr) {i : List Char} {e : Nat} {e0 : Expr}
+theorem logicalAnd_left_fold (pe optE : P Expr) (hpe : Mono pe) (hoptE : Mono optE)
+    {i : List Char} {e : Nat} {e0 : Expr}
     {i1 : List Char} {e1 : Nat} {xs : List Expr} {iF : List Char} {eF : Nat}
     (h0 : cmpExpr pe optE i e = .ok e0 i1 e1)
     (hc : OpChain AndAt (cmpExpr pe optE) (fun _ x => x) i1 e1 xs iF eF) (hend : NoAnd iF) :
     logicalAnd pe optE i e = .ok (xs.foldl (Expr.logic .and) e0) iF eF := by
   rw [logicalAnd_unfold, bind_ok h0]
   refine foldMany0_left_fold _ _ _ (chain_steps AndAt _ (fun _ x => x)
-    (logicElem "and" "&&" (cmpExpr pe optE)) NoAnd
+    (logicElem "and" "&&" (cmpExpr pe optE)) NoAnd (mono_cmpExpr hpe hoptE)
     (fun _ _ _ h => h.length_lt (by simp)) ?_ ?_ hc hend)
   · intro i e op j x k e' ht hx
     exact logicElem_at "and" "&&" _ _ rfl rfl (by simp) _ ht hx
@@ -882,14 +1177,15 @@ theorem logicalAnd_left_fold (pe optE : P Expr) {i : List Char} {e : Nat} {e0 : 
     exact logicElem_stop "and" "&&" _ _ rfl rfl _ hs e
 
 /-- **`or` / `||` chains associate to the left, and their operands are whole conjunctions.** -/
-theorem logicalOr_left_fold (pe optE : P Expr) {i : List Char} {e : Nat} {e0 : Expr}
+theorem logicalOr_left_fold (pe optE : P Expr) (hpe : Mono pe) (hoptE : Mono optE)
+    {i : List Char} {e : Nat} {e0 : Expr}
     {i1 : List Char} {e1 : Nat} {xs : List Expr} {iF : List Char} {eF : Nat}
     (h0 : logicalAnd pe optE i e = .ok e0 i1 e1)
     (hc : OpChain OrAt (logicalAnd pe optE) (fun _ x => x) i1 e1 xs iF eF) (hend : NoOr iF) :
     logicalOr pe optE i e = .ok (xs.foldl (Expr.logic .or) e0) iF eF := by
   rw [logicalOr_unfold, bind_ok h0]
   refine foldMany0_left_fold _ _ _ (chain_steps OrAt _ (fun _ x => x)
-    (logicElem "or" "||" (logicalAnd pe optE)) NoOr
+    (logicElem "or" "||" (logicalAnd pe optE)) NoOr (mono_logicalAnd hpe hoptE)
     (fun _ _ _ h => h.length_lt (by simp)) ?_ ?_ hc hend)
   · intro i e op j x k e' ht hx
     exact logicElem_at "or" "||" _ _ rfl rfl (by simp) _ ht hx
@@ -900,6 +1196,7 @@ theorem logicalOr_left_fold (pe optE : P Expr) {i : List Char} {e : Nat} {e0 : E
 theorem optExprN_succ (n : Nat) (i : List Char) (e : Nat) :
     optExprN (n + 1) i e = logicalOr (exprN n) (optExprN n) (skipWs i) e := rfl
 
+/-- … and `expr` is `opt_expr` whenever that succeeds -/
 theorem exprN_of_logicalOr (n : Nat) {i : List Char} {e : Nat} {v : Expr} {r : List Char}
     {e1 : Nat} (h : logicalOr (exprN n) (optExprN n) (skipWs i) e = .ok v r e1) :
     exprN (n + 1) i e = .ok v r e1 := by
@@ -909,58 +1206,147 @@ theorem exprN_of_logicalOr (n : Nat) {i : List Char} {e : Nat} {v : Expr} {r : L
 /-! ### precedence as a consequence of the nesting (abstract operands) -/
 
 /-- **`a + b * c` is `a + (b * c)`**: the right operand of `+`/`-` is the whole `*`/`/` chain. -/
-theorem add_then_mul (pe optE : P Expr) {i : List Char} {e : Nat} {a b c : Expr}
+theorem add_then_mul (pe optE : P Expr) (hpe : Mono pe) (hoptE : Mono optE)
+    {i : List Char} {e : Nat} {a b c : Expr}
     {i1 j j1 k k1 : List Char} {e1 e2 e3 : Nat} {op1 op2 : ArithOp}
     (ha : unary pe optE i e = .ok a i1 e1) (n1 : NoMulDiv i1) (t1 : AddSubAt i1 op1 j)
-    (hb : unary pe optE j e1 = .ok b j1 e2) (lb : j1.length ≤ j.length) (t2 : MulDivAt j1 op2 k)
-    (hc : unary pe optE k e2 = .ok c k1 e3) (lc : k1.length ≤ k.length)
-    (n2 : NoMulDiv k1) (n3 : NoAddSub k1) :
+    (hb : unary pe optE j e1 = .ok b j1 e2) (t2 : MulDivAt j1 op2 k)
+    (hc : unary pe optE k e2 = .ok c k1 e3) (n2 : NoMulDiv k1) (n3 : NoAddSub k1) :
     arithExpr pe optE i e = .ok (.arith op1 a (.arith op2 b c)) k1 e3 := by
-  have hA : term pe optE i e = .ok a i1 e1 := term_left_fold pe optE ha (.nil _ _) n1
+  have hA : term pe optE i e = .ok a i1 e1 :=
+    term_left_fold pe optE hpe hoptE ha (.nil _ _) n1
   have hB : term pe optE j e1 = .ok (.arith op2 b c) k1 e3 :=
-    term_left_fold pe optE hb (.cons t2 hc lc (.nil _ _)) n2
-  have := t2.length_lt
-  exact arithExpr_left_fold pe optE hA (.cons t1 hB (by omega) (.nil _ _)) n3
+    term_left_fold pe optE hpe hoptE hb (.cons t2 hc (.nil _ _)) n2
+  exact arithExpr_left_fold pe optE hpe hoptE hA (.cons t1 hB (.nil _ _)) n3
 
 /-- **`a * b + c` is `(a * b) + c`**: the left operand of `+`/`-` is the whole `*`/`/` chain. -/
-theorem mul_then_add (pe optE : P Expr) {i : List Char} {e : Nat} {a b c : Expr}
+theorem mul_then_add (pe optE : P Expr) (hpe : Mono pe) (hoptE : Mono optE)
+    {i : List Char} {e : Nat} {a b c : Expr}
     {i1 j j1 k k1 : List Char} {e1 e2 e3 : Nat} {op1 op2 : ArithOp}
     (ha : unary pe optE i e = .ok a i1 e1) (t1 : MulDivAt i1 op1 j)
-    (hb : unary pe optE j e1 = .ok b j1 e2) (lb : j1.length ≤ j.length) (n1 : NoMulDiv j1)
-    (t2 : AddSubAt j1 op2 k)
-    (hc : unary pe optE k e2 = .ok c k1 e3) (lc : k1.length ≤ k.length)
-    (n2 : NoMulDiv k1) (n3 : NoAddSub k1) :
+    (hb : unary pe optE j e1 = .ok b j1 e2) (n1 : NoMulDiv j1) (t2 : AddSubAt j1 op2 k)
+    (hc : unary pe optE k e2 = .ok c k1 e3) (n2 : NoMulDiv k1) (n3 : NoAddSub k1) :
     arithExpr pe optE i e = .ok (.arith op2 (.arith op1 a b) c) k1 e3 := by
   have hA : term pe optE i e = .ok (.arith op1 a b) j1 e2 :=
-    term_left_fold pe optE ha (.cons t1 hb lb (.nil _ _)) n1
-  have hC : term pe optE k e2 = .ok c k1 e3 := term_left_fold pe optE hc (.nil _ _) n2
-  exact arithExpr_left_fold pe optE hA (.cons t2 hC lc (.nil _ _)) n3
+    term_left_fold pe optE hpe hoptE ha (.cons t1 hb (.nil _ _)) n1
+  have hC : term pe optE k e2 = .ok c k1 e3 :=
+    term_left_fold pe optE hpe hoptE hc (.nil _ _) n2
+  exact arithExpr_left_fold pe optE hpe hoptE hA (.cons t2 hC (.nil _ _)) n3
 
 /-- **`x or y and z` is `x or (y and z)`** (operands `x y z` = comparisons). -/
-theorem or_then_and (pe optE : P Expr) {i : List Char} {e : Nat} {x y z : Expr}
+theorem or_then_and (pe optE : P Expr) (hpe : Mono pe) (hoptE : Mono optE)
+    {i : List Char} {e : Nat} {x y z : Expr}
     {i1 j j1 k k1 : List Char} {e1 e2 e3 : Nat} {u1 u2 : Unit}
     (hx : cmpExpr pe optE i e = .ok x i1 e1) (n1 : NoAnd i1) (t1 : OrAt i1 u1 j)
-    (hy : cmpExpr pe optE j e1 = .ok y j1 e2) (ly : j1.length ≤ j.length) (t2 : AndAt j1 u2 k)
-    (hz : cmpExpr pe optE k e2 = .ok z k1 e3) (lz : k1.length ≤ k.length)
-    (n2 : NoAnd k1) (n3 : NoOr k1) :
+    (hy : cmpExpr pe optE j e1 = .ok y j1 e2) (t2 : AndAt j1 u2 k)
+    (hz : cmpExpr pe optE k e2 = .ok z k1 e3) (n2 : NoAnd k1) (n3 : NoOr k1) :
     logicalOr pe optE i e = .ok (.logic .or x (.logic .and y z)) k1 e3 := by
-  have hA : logicalAnd pe optE i e = .ok x i1 e1 := logicalAnd_left_fold pe optE hx (.nil _ _) n1
+  have hA : logicalAnd pe optE i e = .ok x i1 e1 :=
+    logicalAnd_left_fold pe optE hpe hoptE hx (.nil _ _) n1
   have hB : logicalAnd pe optE j e1 = .ok (.logic .and y z) k1 e3 :=
-    logicalAnd_left_fold pe optE hy (.cons t2 hz lz (.nil _ _)) n2
-  have := t2.length_lt (by simp)
-  exact logicalOr_left_fold pe optE hA (.cons t1 hB (by omega) (.nil _ _)) n3
+    logicalAnd_left_fold pe optE hpe hoptE hy (.cons t2 hz (.nil _ _)) n2
+  exact logicalOr_left_fold pe optE hpe hoptE hA (.cons t1 hB (.nil _ _)) n3
 
 /-- **`x and y or z` is `(x and y) or z`**. -/
-theorem and_then_or (pe optE : P Expr) {i : List Char} {e : Nat} {x y z : Expr}
+theorem and_then_or (pe optE : P Expr) (hpe : Mono pe) (hoptE : Mono optE)
+    {i : List Char} {e : Nat} {x y z : Expr}
     {i1 j j1 k k1 : List Char} {e1 e2 e3 : Nat} {u1 u2 : Unit}
     (hx : cmpExpr pe optE i e = .ok x i1 e1) (t1 : AndAt i1 u1 j)
-    (hy : cmpExpr pe optE j e1 = .ok y j1 e2) (ly : j1.length ≤ j.length) (n1 : NoAnd j1)
-    (t2 : OrAt j1 u2 k)
-    (hz : logicalAnd pe optE k e2 = .ok z k1 e3) (lz : k1.length ≤ k.length) (n3 : NoOr k1) :
+    (hy : cmpExpr pe optE j e1 = .ok y j1 e2) (n1 : NoAnd j1) (t2 : OrAt j1 u2 k)
+    (hz : logicalAnd pe optE k e2 = .ok z k1 e3) (n3 : NoOr k1) :
     logicalOr pe optE i e = .ok (.logic .or (.logic .and x y) z) k1 e3 := by
   have hA : logicalAnd pe optE i e = .ok (.logic .and x y) j1 e2 :=
-    logicalAnd_left_fold pe optE hx (.cons t1 hy ly (.nil _ _)) n1
-  exact logicalOr_left_fold pe optE hA (.cons t2 hz lz (.nil _ _)) n3
+    logicalAnd_left_fold pe optE hpe hoptE hx (.cons t1 hy (.nil _ _)) n1
+  exact logicalOr_left_fold pe optE hpe hoptE hA (.cons t2 hz (.nil _ _)) n3
+
+/-! ### the hypotheses are satisfiable: the general theorems applied to the real parser -/
+
+/-- rest and error count of a successful result -/
+def restOf {α : Type} : Res α → Option (List Char × Nat)
+  | .ok _ r e => some (r, e)
+  | _ => none
+
+theorem ok_of_restOf {α : Type} {r : Res α} {i : List Char} {e : Nat}
+    (h : restOf r = some (i, e)) : ∃ v, r = .ok v i e := by
+  cases r <;> simp [restOf] at h
+  obtain ⟨rfl, rfl⟩ := h
+  exact ⟨_, rfl⟩
+
+theorem MulDivAt.mul' {i r j : List Char} (h : skipWs i = '*' :: r) (hj : skipWs r = j) :
+    MulDivAt i .mul j := hj ▸ MulDivAt.mul h
+theorem MulDivAt.div' {i r j : List Char} (h : skipWs i = '/' :: r) (hj : skipWs r = j) :
+    MulDivAt i .div j := hj ▸ MulDivAt.div h
+theorem AddSubAt.add' {i r j : List Char} (h : skipWs i = '+' :: r) (hj : skipWs r = j) :
+    AddSubAt i .add j := hj ▸ AddSubAt.add h
+theorem AddSubAt.sub' {i r j : List Char} (h : skipWs i = '-' :: r) (hj : skipWs r = j) :
+    AddSubAt i .sub j := hj ▸ AddSubAt.sub h
+theorem LogicAt.word' {w s : List Char} {c0 : Char} {t : List Char} {c1 : Char} {t1 j : List Char}
+    (h0 : Text.isMultispace c0 = true) (h : skipWs t = w ++ c1 :: t1)
+    (h1 : Text.isMultispace c1 = true) (hj : skipWs t1 = j) : LogicAt w s (c0 :: t) () j :=
+  hj ▸ LogicAt.word h0 h h1
+theorem LogicAt.sym' {w s : List Char} {i r j : List Char} (h : skipWs i = s ++ r)
+    (hj : skipWs r = j) : LogicAt w s i () j := hj ▸ LogicAt.sym h
+
+/-- at the end of the text no operator of any level follows -/
+theorem no_operator_at_end : NoMulDiv [] ∧ NoAddSub [] ∧ NoCmp [] ∧ NoAnd [] ∧ NoOr [] := by
+  refine ⟨?_, ?_, ?_, ?_, ?_⟩
+  · intro r; simp [skipWs]
+  · intro r; simp [skipWs]
+  · intro r; simp [skipWs]
+  · exact ⟨by intro r; simp [skipWs], by intro c t r h; cases h⟩
+  · exact ⟨by intro r; simp [skipWs], by intro c t r h; cases h⟩
+
+/-- `term_left_fold` on `a / b * c + d`: two steps, stops before ` + d` -/
+example : ∃ a b c, term (exprN 2) (optExprN 2) q!"a / b * c + d" 0 =
+    .ok (.arith .mul (.arith .div a b) c) q!" + d" 0 := by
+  obtain ⟨a, ha⟩ := ok_of_restOf (r := unary (exprN 2) (optExprN 2) q!"a / b * c + d" 0)
+    (i := q!" / b * c + d") (e := 0) (by decide)
+  obtain ⟨b, hb⟩ := ok_of_restOf (r := unary (exprN 2) (optExprN 2) q!"b * c + d" 0)
+    (i := q!" * c + d") (e := 0) (by decide)
+  obtain ⟨c, hc⟩ := ok_of_restOf (r := unary (exprN 2) (optExprN 2) q!"c + d" 0)
+    (i := q!" + d") (e := 0) (by decide)
+  have t1 : MulDivAt q!" / b * c + d" .div q!"b * c + d" :=
+    MulDivAt.div' (r := q!" b * c + d") (by decide) (by decide)
+  have t2 : MulDivAt q!" * c + d" .mul q!"c + d" :=
+    MulDivAt.mul' (r := q!" c + d") (by decide) (by decide)
+  have n : NoMulDiv q!" + d" := by
+    intro r
+    rw [show skipWs q!" + d" = q!"+ d" by decide]
+    simp
+  exact ⟨a, b, c, term_left_fold _ _ (mono_exprN 2) (mono_optExprN 2) ha
+    (.cons t1 hb (.cons t2 hc (.nil _ _))) n⟩
+
+/-- `or_then_and` through the top-level parser on `a or b && c` -/
+example : ∃ a b c, exprN 3 q!"a or b && c" 0 = .ok (.logic .or a (.logic .and b c)) [] 0 := by
+  obtain ⟨a, ha⟩ := ok_of_restOf (r := cmpExpr (exprN 2) (optExprN 2) q!"a or b && c" 0)
+    (i := q!" or b && c") (e := 0) (by decide)
+  obtain ⟨b, hb⟩ := ok_of_restOf (r := cmpExpr (exprN 2) (optExprN 2) q!"b && c" 0)
+    (i := q!" && c") (e := 0) (by decide)
+  obtain ⟨c, hc⟩ := ok_of_restOf (r := cmpExpr (exprN 2) (optExprN 2) q!"c" 0)
+    (i := []) (e := 0) (by decide)
+  have t1 : OrAt q!" or b && c" () q!"b && c" :=
+    LogicAt.word' (c1 := ' ') (t1 := q!"b && c") (by decide) (by decide) (by decide) (by decide)
+  have t2 : AndAt q!" && c" () q!"c" := LogicAt.sym' (r := q!" c") (by decide) (by decide)
+  have n1 : NoAnd q!" or b && c" := by
+    refine ⟨?_, ?_⟩
+    · intro r; rw [show skipWs q!" or b && c" = q!"or b && c" by decide]; simp
+    · intro c t r _ _ h
+      rw [show skipWs q!" or b && c" = q!"or b && c" by decide] at h
+      simp at h
+  obtain ⟨_, _, _, n2, n3⟩ := no_operator_at_end
+  exact ⟨a, b, c, exprN_of_logicalOr 2
+    (or_then_and _ _ (mono_exprN 2) (mono_optExprN 2) ha n1 t1 hb t2 hc n2 n3)⟩
+
+/-- `cmpExpr_operands` on `a + b < c * d` -/
+example : ∃ l r, cmpExpr (exprN 2) (optExprN 2) q!"a + b < c * d" 0 = .ok (.cmp .lt l r) [] 0 := by
+  obtain ⟨l, hl⟩ := ok_of_restOf (r := arithExpr (exprN 2) (optExprN 2) (skipWs q!"a + b < c * d") 0)
+    (i := q!" < c * d") (e := 0) (by decide)
+  obtain ⟨r, hr⟩ := ok_of_restOf (r := arithExpr (exprN 2) (optExprN 2) q!"c * d" 0)
+    (i := []) (e := 0) (by decide)
+  have t : CmpAt q!" < c * d" .lt q!"c * d" := by
+    have := CmpAt.lt (i := q!" < c * d") (r := q!" c * d") (by decide) (by intro r'; simp)
+    rwa [show skipWs q!" c * d" = q!"c * d" by decide] at this
+  exact ⟨l, r, cmpExpr_operands _ _ hl t hr⟩
 
 /-! ### evaluated instances through the real expression parser `expr` (`exprN`) -/
 
@@ -1009,6 +1395,8 @@ theorem inst_or_or : parsesTo q!"a or b || c"
 theorem inst_chain5 : parsesTo q!"a/b*c/d*e"
     (bin .mul (bin .div (bin .mul (bin .div (v "a") (v "b")) (v "c")) (v "d")) (v "e")) = true := by
   decide
+/-- comparisons do not chain: after `a < b` the text ` < c` is left over -/
+theorem inst_cmp_no_chain : restOf (optExprN 11 q!"a < b < c" 0) = some (q!" < c", 0) := by decide
 theorem inst_paren_left : sameExpr q!"(a / b) / c" q!"a / b / c" = some true := by decide
 theorem inst_paren_right : sameExpr q!"a / (b / c)" q!"a / b / c" = some false := by decide
 theorem inst_paren_right_ast : parsesTo q!"a / (b / c)"
